@@ -343,8 +343,25 @@ func (ex *executor) run(st *pstate, b *ssa.BasicBlock, from *ssa.BasicBlock) {
 	if from != nil {
 		st.pred[b] = from
 	}
-	if st.tc == nil || st.visits[b] > 1 {
+	if st.tc == nil {
 		ex.newTC(st)
+	} else if st.visits[b] > 1 {
+		// re-entering a block: the values it defines are recomputed; everything else (in particular
+		// loads that were evaluated before later stores) keeps its term
+		old := st.tc.memo
+		ex.newTC(st)
+		st.tc.memo = old
+		for _, in := range b.Instrs {
+			if v, ok := in.(ssa.Value); ok {
+				delete(st.tc.memo, v)
+			}
+		}
+		// values depending on them (defined in blocks dominated by b) are dropped as well
+		for v := range st.tc.memo {
+			if in, ok := v.(ssa.Instruction); ok && in.Block() != nil && in.Block() != b && b.Dominates(in.Block()) && st.visits[in.Block()] > 0 && ex.inLoop[in.Block()] {
+				delete(st.tc.memo, v)
+			}
+		}
 	} else {
 		// pred map is shared by reference with tc; memo stays valid for first visits
 		st.tc.pred = st.pred
